@@ -1,8 +1,8 @@
 (* M3 - the parent-side control state machine of thread and process workers:
    is_alive / wait / terminate / close against a child of a given class.
    The bodies of ThreadWorker.wait/terminate and ProcessWorker.wait/terminate are GENERATED (Gen/Ctrl.v: lists of control
-   instructions, tools/py2coq/gen_ctrl.py) and interpreted here; is_alive, the persistent kinds' wait/close and the
-   reaction table of the child classes are hand-written (pinned by tools/pin.py).  Compared with the real methods
+   instructions, tools/py2coq/gen_ctrl.py), as are wait() and the shape of close() of the persistent thread/process kinds, and
+   interpreted here; is_alive, _release_child and the reaction table of the child classes are hand-written (pinned).  Compared with the real methods
    driving a scripted child (harness/props/c04.py). *)
 From Coq Require Export List Bool Arith Lia.
 Export ListNotations.
@@ -65,7 +65,7 @@ Fixpoint interp1 (k : kind) (t : tmo) (force : bool) (i : cinstr) (s : pw) : pw 
       let s1 := with_log s [BPoll (if bounded then t else TInf)] in
       if acks (cls s1) && dies_gracefully (cls s1) then set_alive s1 false else s1
   | CRaise => if dies_gracefully (cls s) then set_alive s false else s
-  | CRelease => after_close k s
+  | CRelease | CClose => after_close k s
   | CJoin bounded => with_log s [BJoin (if bounded then t else TInf)]
   | CSigterm => if dies_on_sigterm (cls s) then set_alive s false else s
   | CSigkill => set_alive s false
@@ -80,14 +80,16 @@ Fixpoint interp (k : kind) (t : tmo) (force : bool) (l : list cinstr) (s : pw) :
 Definition step (k : kind) (s : pw) (o : op) : pw * bool :=
   match o with
   | IsAlive => is_alive s
-  | Close => match k with
-             | KPersistentProcess => (after_close k s, true)
-             | KPersistentThread =>
-                 (* close(): `if not self.is_alive(): return` precedes the release *)
-                 let '(s1, a) := is_alive s in
-                 if a then (after_close k s1, true) else (s1, true)
-             | _ => (s, true)
-             end
+  | Close =>
+      (* close() of the persistent kinds: release the child - in some kinds only after `if not self.is_alive(): return` *)
+      let close_ (guarded : bool) :=
+        if guarded then let '(s1, a) := is_alive s in if a then (after_close k s1, true) else (s1, true)
+        else (after_close k s, true) in
+      match k with
+      | KPersistentProcess => close_ gen_pprocess_close_guarded
+      | KPersistentThread => close_ gen_pthread_close_guarded
+      | _ => (s, true)
+      end
   | Wait t =>
       let '(s1, a) := is_alive s in
       if negb a then (s1, true)
@@ -95,8 +97,8 @@ Definition step (k : kind) (s : pw) (o : op) : pw * bool :=
         match k with
         | KThread => finish (interp k t false gen_thread_wait s1)
         | KProcess => finish (interp k t false gen_process_wait s1)
-        | _ => (* the persistent kinds override wait(): close(), then join *)
-            finish (with_log (after_close k s1) [BJoin t])
+        | KPersistentProcess => finish (interp k t false gen_pprocess_wait s1)
+        | KPersistentThread => finish (interp k t false gen_pthread_wait s1)
         end
   | Terminate t force =>
       let '(s1, a) := is_alive s in
